@@ -102,6 +102,17 @@ CLAIMED['C07'] = dict(
     design='6/C07', technique='Lean 4 invariant proof over chunk histories + CRC linearity/residue algebra + differential correspondence',
     note='Detection theorems are about the check the receiver applies at a frame position; a corrupted stream may still contain another valid window (the oracle in the harness accepts exactly those).')
 
+CLAIMED['C11'] = dict(
+    text='Kernel-checked: ascii_resync / binary_resync (WHATEVER the receiver holds after any noise, one whole valid frame leaves its buffer '
+         'empty: invariant "buffer ends with the end delimiter" preserved by every drop of the receive loop), later_frames_delivered + '
+         'ascii_never_deaf (every valid frame after that is delivered, backlog zero), rtu_step_kinds, rtu_server_decides (server-side length '
+         'oracle <= 268 bytes: a decision is taken by then, backlog bounded), rtu_flush_resync; rtu_client_counterexample (known finding: '
+         'client-side oracle unbounded).  RTU resynchronisation is stated up to the protocol-inherent false-frame case, which the harness '
+         'counts and excludes.',
+    design='6/C11', technique='Lean 4 invariant proof over the receive loop + differential correspondence on garbage/valid histories',
+    note='RTU has no delimiter: alignment after noise is recovered at the first failed CRC; a CRC-valid window that starts inside the noise '
+         '(probability about 2^-16) is excluded by hypothesis and measured by the harness.')
+
 PENDING_REASON = 'check not built yet in this revision (work in progress; planned per DESIGN.md section 6)'
 
 def main():
